@@ -12,16 +12,21 @@ Oracle : invariants over the history, checked after every single mj_step and aft
          I1 tree_asleep decodes to disjoint closed index cycles (own decoder == mj_sleepCycle), awake values lie in
             [-(1+mjMINAWAKE), -1], derived arrays (tree_awake, body_awake, counters) agree with tree_asleep;
          I2 a newly formed cycle is exactly one constraint island of that step (or a single unconstrained tree);
-         I3 a sleeping tree keeps bit-identical qpos and all-zero-bytes qvel until it is woken; cycles never split/merge;
+         I3 a sleeping tree keeps bit-identical qpos and all-zero-bytes qvel until it is woken; cycles are only formed
+            during state advancement (mj_step2 / end of mj_step), never in mj_step1 or mj_forward;
          I4 after a user write that changes a sleeping tree's qpos, or sets its qvel / qfrc_applied / xfrc_applied to a
             value whose bytes are non-zero (including -0.0), the next mj_forward reports the WHOLE cycle awake;
          I5 after mj_forward no contact joins a sleeping tree with an awake tree or a mocap body;
          I6 after mj_forward no active connect/weld/joint equality joins a sleeping tree with an awake tree, a mocap
             body, or a sleeping tree of another cycle;
-         I7 a cycle wakes as a whole; I8 trees with policy "never" are never asleep.
+         I7 a cycle wakes as a whole, and only in the position/velocity stages (half of the histories step with
+            mj_step1 + mj_step2 so that waking and sleeping are observed separately; with an unsplit mj_step a woken
+            tree may legitimately be put to sleep again within the same step, in a new cycle that must satisfy I2);
+         I8 trees with policy "never" are never asleep.
          Differential: up to the first sleep event of the history qpos / qvel / qacc / time of the sleep-enabled run and
          of the sleep-disabled twin are bit-identical after every step and every forward.
-Non-trivial : the history contains a sleep event followed (later) by a wake event.
+Non-trivial : the history contains a sleep event (a tree falling asleep during stepping, not sleep="init") followed at
+         a later observation by a wake event.
 """
 import numpy as np
 from hypothesis import strategies as st
@@ -288,16 +293,18 @@ def main(ck):
       raise Violation('%s: nv_awake=%d, expected %d' % (what, d.nv_awake, nva), bucket='I1-derived')
 
   def run(case):
-    sc, ops = case
+    sc, ops, split = case
     xml = render(sc, True)
+    st_labels_split = 'stepping:' + ('step1+step2' if split else 'mj_step')
     m = lib.model_from_xml(xml)
     m2 = lib.model_from_xml(render(sc, False))
     d, d2 = lib.make_data(m), lib.make_data(m2)
     info = Info(lib, m)
     nt = info.ntree
     st_ = dict(prev=None, snap={}, ever_slept=False, slept=False, wake_after_sleep=False, labels=set(), nsleep=0,
-               nwake=0)
+               nwake=0, had_sleep_before=False)
     labels = st_['labels']
+    labels.add(st_labels_split)
 
     def compare_twin(what):
       if st_['ever_slept']:
@@ -312,7 +319,7 @@ def main(ck):
         raise Violation('%s: time differs between sleep enabled/disabled' % what, bucket='differential')
       labels.add('differential-compared')
 
-    def observe(what, full=False, expect_awake=(), reason=None):
+    def observe(what, full=False, expect_awake=(), reason=None, phase='wake'):
       ta = np.array(d.tree_asleep, dtype=int).copy()
       # I1
       if np.any(ta < -(1 + info.minawake)):
@@ -332,47 +339,54 @@ def main(ck):
           raise Violation('%s: tree %d has sleep policy never but is asleep' % (what, i), bucket='I8-never')
       prev = st_['prev']
       qb, vb = bits(d.qpos), np.asarray(d.qvel)
-      newly = [i for i in cyc if prev is None or i not in prev]
-      # I2: new cycles are islands of this step
-      if newly and prev is not None:
+      pset = set(prev.values()) if prev is not None else set()
+      changed = {c for c in set(cyc.values()) if c not in pset}       # cycles formed since the last observation
+      gone = {c for c in pset if c not in set(cyc.values())}          # cycles woken since the last observation
+      if prev is not None and phase == 'wake' and changed:
+        raise Violation('%s: cycle(s) %s formed outside state advancement (position/velocity stage or mj_forward)' % (
+            what, sorted(changed)), bucket='I3-cycle-changed')
+      if prev is not None and phase == 'sleep' and gone:
+        raise Violation('%s: cycle(s) %s woke during mj_step2 (waking is documented for the position stage)' % (
+            what, sorted(gone)), bucket='I7-wake-phase')
+      # I2: cycles formed in this step are islands of this step.  With an unsplit mj_step a sleeping tree may be woken by a
+      # contact with a tree that is ready to sleep and be put to sleep again in the same step (it inherits the countdown
+      # of the waking tree); the re-formed cycle must then be an island of this step like any other new cycle.
+      if changed and prev is not None:
         tisl = np.array(d.tree_island, dtype=int) if int(d.nisland) > 0 else -np.ones(nt, dtype=int)
-        for c in {cyc[i] for i in newly}:
-          if not set(c) <= set(newly):
-            raise Violation('%s: new sleeper joined an existing cycle %s' % (what, c), bucket='I3-cycle-changed')
+        for c in changed:
           isl = {int(tisl[i]) for i in c}
           if len(isl) != 1 or (isl == {-1} and len(c) != 1) or (
               isl != {-1} and set(np.flatnonzero(tisl == next(iter(isl))).tolist()) != set(c)):
-            raise Violation('%s: new sleep cycle %s is not one island (tree_island=%s)' % (what, c, tisl.tolist()),
-                            bucket='I2-island')
+            raise Violation('%s: new sleep cycle %s is not one island of this step (tree_island=%s, previous cycles %s)' % (
+                what, c, tisl.tolist(), sorted(pset)), bucket='I2-island')
           labels.add('cycle-size:%d' % min(len(c), 3))
-      for i in newly:
-        st_['snap'][i] = qb[info.tree_qpos[i]].copy()
-      if newly:
+          if any(i in prev for i in c):
+            labels.add('wake+resleep-in-one-step')
+      for c in changed:
+        for i in c:
+          st_['snap'][i] = qb[info.tree_qpos[i]].copy()
+      if changed:
         st_['slept'] = True
         st_['ever_slept'] = True
         st_['nsleep'] += 1
         labels.add('sleep-event' if prev is not None else 'sleep:init')
-      # I3 / I7
-      if prev is not None:
-        woke = set()
-        for i, c in prev.items():
-          if i in cyc:
-            if cyc[i] != c:
-              raise Violation('%s: sleeping tree %d moved from cycle %s to %s' % (what, i, c, cyc[i]),
-                              bucket='I3-cycle-changed')
-          else:
-            woke.add(i)
-            for j in c:
-              if j in cyc:
-                raise Violation('%s: tree %d of cycle %s woke but tree %d is still asleep (tree_asleep=%s)' % (
-                    what, i, c, j, ta.tolist()), bucket='I7-partial-wake')
-        if woke:
-          st_['nwake'] += 1
-          if st_['slept']:
-            st_['wake_after_sleep'] = True
-          labels.add('wake:' + (reason or 'during-step'))
-          for i in woke:
-            st_['snap'].pop(i, None)
+      # I7: a cycle wakes as a whole (exact in the split-step mode, where waking and sleeping are observed separately)
+      if gone:
+        for c in gone:
+          still = [j for j in c if j in cyc]
+          if still and phase != 'both':
+            raise Violation('%s: cycle %s woke only partially, trees %s still asleep (tree_asleep=%s)' % (
+                what, c, still, ta.tolist()), bucket='I7-partial-wake')
+          for i in c:
+            if i not in cyc:
+              st_['snap'].pop(i, None)
+        st_['nwake'] += 1
+        if st_['had_sleep_before']:        # a tree fell asleep during stepping at an EARLIER observation
+          st_['wake_after_sleep'] = True
+        labels.add('wake:' + (reason or 'during-step'))
+      if changed and prev is not None:
+        st_['slept_dyn'] = True
+      st_['had_sleep_before'] = st_.get('slept_dyn', False)
       for i in cyc:
         if i in expect_awake:
           continue
@@ -460,10 +474,28 @@ def main(ck):
 
       if kind == 'step':
         for s in range(op[1]):
-          lib.mj_step(m, d)
-          lib.mj_step(m2, d2)
           nsteps += 1
-          observe('%s step %d' % (what, s), reason='during-step')
+          # a diverging simulation makes the engine reset mjData (documented auto-reset): such histories are discarded
+          if split:
+            lib.mj_step1(m, d)
+            lib.mj_step1(m2, d2)
+            if lib.warnings():
+              ck.discard('engine-warning')
+              return None
+            observe('%s step %d (after mj_step1)' % (what, s), reason='during-step', phase='wake')
+            lib.mj_step2(m, d)
+            lib.mj_step2(m2, d2)
+            if lib.warnings():
+              ck.discard('engine-warning')
+              return None
+            observe('%s step %d (after mj_step2)' % (what, s), reason='during-step', phase='sleep')
+          else:
+            lib.mj_step(m, d)
+            lib.mj_step(m2, d2)
+            if lib.warnings():
+              ck.discard('engine-warning')
+              return None
+            observe('%s step %d' % (what, s), reason='during-step', phase='both')
         w = lib.warnings()
         if w:
           ck.discard('engine-warning')
@@ -549,10 +581,10 @@ def main(ck):
         labels.add('eq:' + ('on' if on else 'off'))
       lib.mj_forward(m, d)
       lib.mj_forward(m2, d2)
-      observe(what + ' +forward', full=True, expect_awake=expect, reason=reason)
       if lib.warnings():
         ck.discard('engine-warning')
         return None
+      observe(what + ' +forward', full=True, expect_awake=expect, reason=reason)
     return st_, xml, nsteps
 
   def test(case):
@@ -561,11 +593,12 @@ def main(ck):
       return
     st_, xml, nsteps = r
     nt = st_['wake_after_sleep']
-    ck.case(nontrivial=nt, key=(xml, case[1]), sample=dict(xml=xml, ops=case[1], sleep_events=st_['nsleep'],
+    ck.case(nontrivial=nt, key=(xml, case[1], case[2]), sample=dict(xml=xml, ops=case[1], split=case[2], sleep_events=st_['nsleep'],
                                                           wake_events=st_['nwake'], steps=nsteps),
             labels=sorted(st_['labels']) + (['nt:sleep-then-wake'] if nt else []))
 
-  ck.run_hypothesis(test, st.tuples(scene(), ops_strategy(ck.budget(40, 60))), ck.budget(500, 12000), name='sleep-history')
+  ck.run_hypothesis(test, st.tuples(scene(), ops_strategy(ck.budget(40, 60)), st.booleans()), ck.budget(500, 12000),
+                    name='sleep-history')
 
 
 LEVEL = 'exploration'
